@@ -502,3 +502,32 @@ def rule_keyword(ctx, rep, config="c-lib"):
                               nm, (" over %s characters" % const_int(c.args[2])) if len(c.args) > 2 and const_int(c.args[2]) is not None else ""),
                           where=c.where(), witness=[c.where()])
     rep.floor("C11-keyword", "comparisons with the keyword literal", n, 1)
+
+
+def rule_char_code(ctx, rep, config="c-lib"):
+    rep.rule("C11-charcode", "the code of a character constant is the character: the byte taken from the text of the constant is widened to the int code without sign "
+                             "extension.  A negative code means `no code given' to set_sgrammar (it hands out the next free code from 256 on): a byte of 0x80 and more, "
+                             "widened as a signed char, silently turns the constant into a terminal with some free code -- the token whose code is the character is "
+                             "refused by yaep_parse")
+    p = ctx.prog(config)
+    n = 0
+    for f in p.m.defined():
+        for s_ in f.all_insts():
+            if s_.op != "store" or resolve_addr(f, s_.ops[1]).last_field() != "sterm.code":
+                continue
+            v = f.inst(strip_casts(f, s_.ops[0]))
+            if v is None or v.op not in ("sext", "zext"):
+                continue
+            src = f.inst(strip_casts(f, v.ops[0]))
+            if src is None or src.op != "load" or src.ty != "i8":
+                continue
+            n += 1
+            rep.cover(p, [f.name])
+            key = "%s/character-code#%d" % (f.name, n)
+            if v.op == "zext":
+                rep.ok("C11-charcode", key, sample={"store": s_.where()})
+            else:
+                rep.violation("C11-charcode", key, "the code of a character constant is the byte of the text widened as a SIGNED char: for bytes of 0x80 and more the code is "
+                              "negative, which set_sgrammar takes for `no code given' -- the constant becomes a terminal with a free code >= 256 and the character "
+                              "itself is not a token of the grammar", where=s_.where(), witness=[s_.where()])
+    rep.floor("C11-charcode", "codes of character constants", n, 1)
